@@ -159,7 +159,7 @@ def finalize(b, commit=True, root=True, mine=True, chain='regtest'):
         b['root'] = M.merkle_root([W.txid(t) for t in b['txs']]) if b['txs'] else bytes(32)
     if mine:
         target = RC.set_compact(b['bits'])[0]
-        for nn in range(4000):
+        for nn in range(200000):
             b['nonce'] = nn
             if int.from_bytes(H.dsha(W.enc_header(b)), 'little') <= target:
                 break
@@ -463,7 +463,11 @@ def s_valid_block(draw):
                 t['wit'][0] = [b'']
         txs.append(t)
     b = {'version': draw(st.sampled_from([1, 2, 0x20000000])), 'prev': draw(st.binary(min_size=32, max_size=32)), 'root': bytes(32),
-         'time': draw(st.sampled_from([CUR, CUR - 5000, 0, CUR + 7000])), 'bits': 0x207fffff, 'nonce': 0, 'txs': txs}
+         'time': draw(st.sampled_from([CUR, CUR - 5000, 0, CUR + 7000])),
+         # the regtest limit itself, the same and slightly lower targets in NON-NORMALISED spellings (mantissa with leading zero
+         # bytes), and harder ones: all valid compact targets a header may carry
+         'bits': draw(st.sampled_from([0x207fffff, 0x207fffff, 0x207fffff, 0x21007fff, 0x2200007f, 0x207fff00, 0x1f7fffff,
+                                       0x20010000, 0x2000ffff])), 'nonce': 0, 'txs': txs}
     finalize(b)
     assert block_ok(b, CUR, 'regtest')[0], block_ok(b, CUR, 'regtest')
     return {'version': b['version'], 'prev': b['prev'].hex(), 'root': b['root'].hex(), 'time': b['time'], 'bits': b['bits'],
